@@ -187,7 +187,7 @@ struct Shm {
   uint64_t pool_digest_before, pool_digest_after;
   uint64_t pool_objects;
   sim::Result res;
-  size_t n_sw;
+  volatile size_t n_sw;
   int sw_truncated;
   sim::Switch sw[kShmSwitches];
   sim::Fault faults[64];
@@ -332,15 +332,15 @@ static void child_prepare(const Plan& pl, RunCtx& rc, int only_task) {
   g_shm->n_faults = nf;
   cfg.faults = g_shm->faults;
   cfg.n_faults = nf;
+  cfg.sw_buf = g_shm->sw;  // in shared memory: the schedule survives a crash of this process
+  cfg.sw_cap = kShmSwitches;
+  cfg.sw_count = &g_shm->n_sw;
 
   g_shm->stage = 3;
   sim::run(cfg, task_body, &rc, g_shm->res);
   g_shm->stage = 4;
   sim::Result& res = g_shm->res;
-  size_t n = res.n_switches < kShmSwitches ? res.n_switches : kShmSwitches;
-  g_shm->sw_truncated = res.n_switches > kShmSwitches;
-  memcpy(g_shm->sw, res.switch_log, n * sizeof(sim::Switch));
-  g_shm->n_sw = n;
+  g_shm->sw_truncated = res.switches + 1 > kShmSwitches;
   res.switch_log = nullptr;
   for (size_t i = 0; i < res.n_races; ++i) {
     const char* k = res.races[i].region_id >= 0 ? pool.kind_of_region(res.races[i].region_id) : "";
@@ -414,7 +414,7 @@ static ChildStatus wait_child(pid_t pid, double timeout_s) {
   }
 }
 
-static void shm_reset() { memset((void*)g_shm, 0, offsetof(Shm, sw)); g_shm->n_sw = 0; g_shm->n_faults = 0; }
+static void shm_reset() { memset((void*)g_shm, 0, offsetof(Shm, sw)); g_shm->n_sw = 0; g_shm->n_faults = 0; g_shm->res.cur_task = -1; g_shm->res.cur_op = -1; }
 
 static void compute_refs(const Plan& pl, Refs& refs) {
   refs = Refs();
@@ -504,8 +504,17 @@ static RunOutcome execute_run(const Plan& pl, const Refs& refs) {
     } else {
       ro.cls |= C_MACHINERY;
     }
-    snprintf(b, sizeof b, "\"crash\":{\"sig\":%d,\"wsig\":%d,\"terminated\":%d,\"exit\":%d,\"stage\":%d},", g_shm->crash_sig,
-             ro.cs.sig, g_shm->terminated, ro.cs.exit_code, g_shm->stage);
+    {
+      int ct = res.cur_task, co = res.cur_op;
+      std::string opn = "?";
+      if (ct >= 0 && ct < (int)pl.tasks.size() && co >= 0 && co < (int)pl.tasks[ct].size()) {
+        const PlanOp& po = pl.tasks[ct][co];
+        const OpDef* df = h::find_def(po.name.c_str());
+        opn = po.name + ":" + (df ? df->fn_names[po.p[0]] : "?");
+      }
+      snprintf(b, sizeof b, "\"crash\":{\"sig\":%d,\"wsig\":%d,\"terminated\":%d,\"exit\":%d,\"stage\":%d,\"task\":%d,\"op\":\"%s\"},",
+               g_shm->crash_sig, ro.cs.sig, g_shm->terminated, ro.cs.exit_code, g_shm->stage, ct, opn.c_str());
+    }
     d += b;
   }
   if (res.unsupported) {
@@ -866,7 +875,7 @@ static Plan with_explicit_schedule(const Plan& pl) {
   Plan q = pl;
   q.sched.strategy = sim::S_EXPLICIT;
   q.sched.faults.clear();
-  q.sched.sw.assign(g_shm->sw, g_shm->sw + g_shm->n_sw);
+  q.sched.sw.assign(g_shm->sw, g_shm->sw + (size_t)g_shm->n_sw);
   return q;
 }
 
@@ -957,7 +966,7 @@ static int cmd_sweep(uint64_t seed, uint64_t w0, uint64_t wstep, double deadline
         n_cands++;
         char nm[256];
         snprintf(nm, sizeof nm, "%s/cand-%" PRIu64 "-%" PRIu64 "-%d.plan", cand_dir.c_str(), seed, widx, sidx);
-        Plan q = (g_shm->stage >= 4 && g_shm->n_sw > 0 && !g_shm->sw_truncated) ? with_explicit_schedule(pl) : pl;
+        Plan q = (g_shm->stage >= 3 && g_shm->n_sw > 0 && g_shm->n_sw < kShmSwitches) ? with_explicit_schedule(pl) : pl;
         if (write_file(nm, plan_to_text(q))) cand = nm;
       }
       std::string line = run_json("run", seed, widx, (uint64_t)sidx, pl, refs, ro, cand, now_s() - t0);
